@@ -120,7 +120,7 @@ def run_miri(name, tier):
     if r['status'] == 'fail':
         out['violations'].append({'props': ['C19'], 'unit': 'miri', 'function': 'verif_ffi_miri', 'kind': 'Miri reported an error', 'clause': 'C19 life cycle performs no invalid memory access and leaks nothing; strings equal the Rust API values',
                                   'rendered': r.get('raw', '')[-3500:], 'input': {'miri_test': 'miri/verif_ffi_miri.rs', 'tier': tier, 'error': r.get('detail', '')[:600]}, 'exit_point': None})
-    out['samples'].append({'miri_test': 'ffi_life_cycles + ffi_fixed_life_cycle', 'verdict': r['status'], 'wall_s': round(r.get('wall_s', 0))})
+    out['samples'].append({'miri_test': 'ffi_life_cycles + ffi_fixed_life_cycle + ffi_reconfigure_life_cycle', 'verdict': r['status'], 'wall_s': round(r.get('wall_s', 0))})
     return out
 
 
